@@ -1,4 +1,7 @@
 """C02 - listing addresses, symbol values and the emitted image agree."""
+import json
+import os
+
 from hypothesis import strategies as st
 
 from vlib import driver, proggen
@@ -10,7 +13,10 @@ RULE = ("Hypothesis builds programs of 1-40 statements from 8-integer prototypes
         "label+-k,PCR, n,PCR, short and long branches, register lists and pairs), FCB/FDB/FCC/RMB of varying lengths, "
         "EQU (before or after use), NAM, SETDP, END; labels on any statement, forward and backward references through "
         "EQU symbols, labels and label+-n; origin from a boundary list or arbitrary, or no ORG at all. Negative "
-        "variants: a duplicated label, an undefined symbol, a second ORG / code before ORG. Oracle: independent layout "
+        "variants: a duplicated label, an undefined symbol, a second ORG / code before ORG. A second search feeds "
+        "the same kind of program through INCLUDE: a block of its label-free self-contained statements is spliced in "
+        "two or three times from one file (side by side or through a wrapper file) and a stretch of the text is moved "
+        "into a further file; the walk judges the flat program. Oracle: independent layout "
         "walk (address advances by the decoded instruction length or the data model's length; listing row address, "
         "listing hex column, image concatenation, symbol table = label addresses + EQU values, instruction meaning via "
         "the reference decoder). Non-trivial = >= 3 byte-emitting statements of >= 2 different sizes and a label "
@@ -21,7 +27,7 @@ ASSUMPTIONS = [
     "the listing is parsed by the README's fixed columns: $AAAA then a 10-character hex column",
     "END / NAM / EQU / SETDP rows may show any address (no property fixes it)",
 ]
-HEALTH = {"accepted": 0.2, "nontrivial_layout": 0.12, "negative": 0.02}
+HEALTH = {"accepted": 0.2, "nontrivial_layout": 0.12, "negative": 0.02, "through_include": 600}
 EXHAUSTIVE = {"quick": ["every third program of the C03 label,PCR distance families (single, spanning, crossing), judged by the layout walk"],
               "thorough": ["all programs of the C03 label,PCR distance families, judged by the layout walk"]}
 
@@ -31,6 +37,57 @@ _case = st.one_of(
     st.fixed_dictionaries(dict(prog=proggen.program)),
     st.fixed_dictionaries(dict(prog=proggen.program)),
     st.fixed_dictionaries(dict(prog=proggen.small_program, neg=_neg, at=st.integers(0, 40), at2=st.integers(0, 40))))
+
+
+# programs whose statements reach the assembler through INCLUDE: the text is cut into files, and a block of
+# self-contained label-free statements is spliced in two or three times from one file
+_inc_case = st.fixed_dictionaries(dict(prog=proggen.program, inc=st.fixed_dictionaries(dict(
+    at=st.lists(st.integers(0, 40), min_size=2, max_size=3), pick=st.lists(st.integers(0, 40), min_size=1, max_size=4),
+    cut=st.tuples(st.integers(0, 40), st.integers(0, 40)), diamond=st.booleans()))))
+_SPARE_BLOCK = [{"lab": "", "k": "inh", "mn": "NOP"}, {"lab": "", "k": "imm16", "mn": "LDX", "val": {"lit": 0x1234, "sp": "hex4"}},
+                {"lab": "", "k": "fcb", "vals": [{"lit": 1, "sp": "dec"}, {"lit": 2, "sp": "dec"}, {"lit": 3, "sp": "dec"}]}]
+
+
+def _self_contained(s):
+    text = json.dumps(s)
+    return (not s.get("lab")) and s["k"] in proggen.INSTR_KINDS + ("fcb", "fdb", "fcc", "rmb") and '"sym"' not in text \
+        and '"to"' not in text and s["k"] not in ("br", "pcr")
+
+
+def with_includes(case):
+    """-> (flat program the layout walk judges, files {name: lines}, main file name)"""
+    prog = case["prog"]
+    inc = case["inc"]
+    stmts = prog["stmts"]
+    pool = [s for s in stmts if _self_contained(s)] or _SPARE_BLOCK
+    block = [dict(pool[i % len(pool)]) for i in inc["pick"]]
+    first = 1 if stmts and stmts[0]["k"] == "org" else 0
+    last = len(stmts) - (1 if stmts and stmts[-1]["k"] == "end" else 0)
+    at = sorted(first + a % (last - first + 1) for a in inc["at"])
+    flat, pieces, prev = [], [], 0
+    for a in at:
+        flat += stmts[prev:a] + block
+        pieces.append(stmts[prev:a])
+        prev = a
+    flat += stmts[prev:]
+    pieces.append(stmts[prev:])
+    flat_prog = dict(prog, stmts=flat)
+    render = lambda ss: proggen.render(dict(prog, stmts=ss)) if ss else []
+    files = {"blk.asm": render(block)}
+    main = []
+    for k, piece in enumerate(pieces):
+        main += render(piece)
+        if k < len(pieces) - 1:
+            main.append(" INCLUDE {}\n".format("wrap.asm" if inc["diamond"] and k == len(pieces) - 2 else "blk.asm"))
+    if inc["diamond"]:
+        files["wrap.asm"] = [" INCLUDE blk.asm\n"]
+    # additionally move a stretch of the main text (which holds no INCLUDE line) into a file of its own
+    lo, hi = sorted(c % (len(main) + 1) for c in inc["cut"])
+    if hi - lo >= 1 and not any(" INCLUDE " in l for l in main[lo:hi]) and not (lo == 0 and first):
+        files["part.asm"] = main[lo:hi]
+        main = main[:lo] + [" INCLUDE part.asm\n"] + main[hi:]
+    files["main.asm"] = main
+    return flat_prog, files, "main.asm"
 
 
 def _from_items(case):
@@ -60,13 +117,16 @@ def enumerated(tier, seed):
     # the sizes of PC-relative statements decide every later address: re-use C03's distance families
     from checks import c03
     for i, case in enumerate(c03.enumerated("quick", seed)):
+        if case.get("macro"):
+            continue
         if any(it["t"] == "pcr" for it in case["items"]) and not any(it["t"] == "rmb" and it["n"] > 2000 for it in case["items"]):
             if i % 3 == 0 or tier == "thorough":
                 yield dict(prog=_from_items(case))
 
 
 def searches(tier):
-    return [("programs", _case, 40000 if tier == "quick" else 800000)]
+    return [("programs", _case, 40000 if tier == "quick" else 800000),
+            ("through_include", _inc_case, 2500 if tier == "quick" else 60000)]
 
 
 def apply_negative(case):
@@ -109,15 +169,29 @@ def apply_negative(case):
 
 
 def render(case):
+    if case.get("inc"):
+        prog, files, main = with_includes(case)
+        return dict(files=dict((k, [l.rstrip("\n") for l in v]) for k, v in files.items()))
     prog, kind = apply_negative(case)
     return dict(negative=kind, source=[l.rstrip("\n") for l in proggen.render(prog)])
 
 
 def execute(case):
-    prog, neg = apply_negative(case)
-    lines = proggen.render(prog)
-    out = driver.assemble(lines)
     labels = []
+    if case.get("inc"):
+        prog, files, main = with_includes(case)
+        neg = None
+        lines = proggen.render(prog)
+        labels.append("through_include")
+        with driver.TempDir() as tmp:
+            for name, flines in files.items():
+                with open(os.path.join(tmp, name), "w", newline="") as fh:
+                    fh.write("".join(flines))
+            out = driver.assemble(list(files[main]), cwd=tmp)
+    else:
+        prog, neg = apply_negative(case)
+        lines = proggen.render(prog)
+        out = driver.assemble(lines)
     if out.kind in ("CRASH", "HANG"):
         return skip("crash/hang: judged by C13 ({} {} {})".format(out.kind, out.exc, out.frame), labels=labels)
     stmts = prog["stmts"]
@@ -128,6 +202,10 @@ def execute(case):
         if out.kind == "DIAG":
             return ok(labels=labels, nontrivial=True)
         return viol("{} accepted: {!r}".format(neg, [l.strip() for l in lines][:14]), fid="C02:" + neg + "-accepted", labels=labels)
+    if out.kind == "DIAG" and case.get("inc"):
+        # the spliced-in blocks move everything behind them: the flat text itself may have become unassemblable
+        if driver.assemble(lines).kind == "DIAG":
+            return ok(labels=labels + ["rejected", "flat_rejected_too"])
     if out.kind == "DIAG":
         labels.append("rejected")
         if neg in ("second_org", "code_before_org"):
